@@ -305,180 +305,134 @@ theorem rem_exact {x m : UInt32} {xv mv : ℚ} (hx : toRat? x = some xv) (hm : t
     rw [this]
   · exact toRat?_ofRat hrep
 
-/-- The sign of the `%` result is the sign of the dividend (also when the remainder is zero). -/
-theorem rem_sign {x : UInt32} {xv mv : ℚ} (hx : toRat? x = some xv)
-    (hm0 : mv ≠ 0) (hs : signBit x = false) :
-    0 ≤ xv - ((ratTrunc (xv / mv) : ℤ) : ℚ) * mv := by
-  -- x ≥ 0
-  have hx0 : 0 ≤ xv := by
-    by_contra hneg
-    have hne : xv ≠ 0 := by intro h; rw [h] at hneg; exact hneg (le_refl _)
-    obtain ⟨-, -, hsb⟩ := abs_of_toRat? hx
-    rw [hsb hne] at hs
-    simp at hs; exact hneg hs
-  have hfac : xv - ((ratTrunc (xv / mv) : ℤ) : ℚ) * mv = (xv / mv - ((ratTrunc (xv / mv) : ℤ) : ℚ)) * mv := by
-    field_simp
-  rw [hfac]
-  rcases lt_or_gt_of_ne hm0 with hmn | hmp
-  · -- m < 0: x/m ≤ 0, x/m − trunc ≤ 0, times m < 0
-    have hd : xv / mv ≤ 0 := div_nonpos_of_nonneg_of_nonpos hx0 (le_of_lt hmn)
-    have : xv / mv - ((ratTrunc (xv / mv) : ℤ) : ℚ) ≤ 0 := by
-      rcases lt_or_eq_of_le hd with h | h
-      · have := ((ratTrunc_bounds (xv / mv)).2 h).2.1; linarith
-      · rw [h]; have := ratTrunc_intCast 0; simp at this; rw [this]; simp
-    exact mul_nonneg_of_nonpos_of_nonpos this (le_of_lt hmn)
-  · have hd : 0 ≤ xv / mv := div_nonneg hx0 (le_of_lt hmp)
-    have := ((ratTrunc_bounds (xv / mv)).1 hd).1
-    exact mul_nonneg (by linarith) (le_of_lt hmp)
+/-- `x % m` is a NaN (the canonical one of the model) or a finite value – never an infinity. -/
+theorem rem_cases (x m : UInt32) : rem x m = canonNaN ∨ ∃ ρ, toRat? (rem x m) = some ρ := by
+  unfold rem
+  by_cases hn : (isNaN x || isNaN m) = true
+  · left; simp [hn]
+  · simp only [hn, Bool.false_eq_true, ↓reduceIte]
+    cases hx : toRat? x with
+    | none => left; rfl
+    | some xv =>
+      cases hm : toRat? m with
+      | none => right; exact ⟨xv, hx⟩
+      | some mv =>
+        dsimp only
+        by_cases h0 : (mv == 0) = true
+        · left; simp [h0]
+        · simp only [h0, Bool.false_eq_true, ↓reduceIte]
+          split
+          · right; exact ⟨0, toRat?_and_signMask x⟩
+          · right
+            have hm0 : mv ≠ 0 := by simpa using h0
+            exact ⟨_, toRat?_ofRat (rep_fmod (rep_of_toRat? hx) (rep_of_toRat? hm) hm0).1⟩
 
-/-- **fallback_rem_euclid_spec, non-negative dividend — everything is exact.**  For finite `x` with a
-clear sign bit and finite `m > 0`, `fallback::rem_euclid(x, m)` is *exactly* the least non-negative
-remainder: `0 ≤ r < m` and `x − r` is an integer multiple of `m`.  No rounding occurs. -/
-theorem fallback_rem_euclid_nonneg {x m : UInt32} {xv mv : ℚ} (hx : toRat? x = some xv)
-    (hm : toRat? m = some mv) (hmp : 0 < mv) (hs : signBit x = false) :
-    ∃ r : ℚ, toRat? (remEuclid x m) = some r ∧ 0 ≤ r ∧ r < mv ∧ ∃ k : ℤ, xv - r = (k : ℚ) * mv := by
-  have hm0 : mv ≠ 0 := ne_of_gt hmp
-  set ρ : ℚ := xv - ((ratTrunc (xv / mv) : ℤ) : ℚ) * mv with hρ
-  have hrem := rem_exact hx hm hm0
-  have hnn := rem_sign hx hm0 hs
-  obtain ⟨hrep, hlt, -⟩ := rep_fmod (rep_of_toRat? hx) (rep_of_toRat? hm) hm0
-  refine ⟨ρ, ?_, hnn, ?_, ratTrunc (xv / mv), by rw [hρ]; ring⟩
-  · -- (x % m) + 0.0·m = x % m
-    unfold remEuclid
-    rw [hs]
-    have hmul : toRat? (mul (boolToF32 false) m) = some 0 := by
-      unfold mul boolToF32
-      simp only [Bool.false_eq_true, ↓reduceIte]
-      rw [isNaN_eq_false_of_some toRat?_zero, isNaN_eq_false_of_some hm, toRat?_zero, hm]
-      simp [toRat?_zeroS]
-    have := add_finite_exact hrem hmul (by rw [add_zero]; exact hrep)
-    rw [this, add_zero]
-  · rw [abs_of_nonneg hnn, abs_of_pos hmp] at hlt; exact hlt
+/-- **fallback_rem_euclid_eq_std_algorithm.** Since fix e9e07c1 `fallback::rem_euclid` (and with it the
+libm back end's) is bit for bit the standard library's formula, for every pair of bit patterns. -/
+theorem fallback_rem_euclid_eq_std_algorithm (x m : UInt32) : remEuclid x m = F32.remEuclidStd x m := rfl
 
-/-- **fallback_rem_euclid_spec, negative dividend — exact up to the one final rounding.**  For finite
-`x` with the sign bit set and finite `m > 0`: with `ρ = x − trunc(x/m)·m ∈ (−m, 0]` computed exactly by
-`%`, the result is the binary32 value nearest to the exact sum `ρ + m ∈ (0, m]`, which is congruent to
-`x` modulo `m`; being a correctly rounded value between the representable anchors `0` and `m`, it
-lies in `[0, m]`.  (`m` itself is returned for `x = −0.0`, for negative multiples of `m`, and when
-`|ρ|` is below half an ulp of `m`.) -/
-theorem fallback_rem_euclid_neg {x m : UInt32} {xv mv : ℚ} (hx : toRat? x = some xv)
-    (hm : toRat? m = some mv) (hmp : 0 < mv) (hs : signBit x = true) :
-    ∃ ρ r : ℚ, toRat? (rem x m) = some ρ ∧ -mv < ρ ∧ ρ ≤ 0 ∧ (∃ k : ℤ, xv - (ρ + mv) = (k : ℚ) * mv) ∧
-      toRat? (remEuclid x m) = some r ∧ 0 ≤ r ∧ r ≤ mv ∧
-      (∀ s : ℚ, Rep s → |r - (ρ + mv)| ≤ |s - (ρ + mv)|) := by
-  have hm0 : mv ≠ 0 := ne_of_gt hmp
+/-- micromath's variant `if r >= 0 { r } else { r + |m| }` returns the same bits as well (the two tests
+differ only when `r` is NaN, and then both results are the NaN). -/
+theorem mm_rem_euclid_eq_std_algorithm (x m : UInt32) : mmRemEuclid x m = remEuclid x m := by
+  unfold mmRemEuclid remEuclid
+  dsimp only
+  rcases rem_cases x m with hnan | ⟨ρ, hρ⟩
+  · rw [hnan]
+    have hn : isNaN canonNaN = true := by decide
+    have h1 : le 0 canonNaN = false := by
+      unfold le feq; rw [lt_nan_right hn]; simp [hn]
+    have h2 : lt canonNaN 0 = false := lt_nan_left hn
+    have h3 : add canonNaN (FloatFallback.abs m) = canonNaN := by unfold add; simp [hn]
+    rw [h1, h2, h3]
+  · rw [le_finite toRat?_zero hρ, lt_finite hρ toRat?_zero]
+    by_cases h : ρ < 0
+    · simp [h, not_le.2 h]
+    · simp [h, not_lt.1 h]
+
+/-- **fallback_rem_euclid_spec.** Domain stated explicitly: `x` finite, `m` finite and **non-zero, of
+either sign** (std's semantics: the result is taken modulo `|m|`).  With `ρ = x − trunc(x/m)·m` the exact
+value of `x % m` (`|ρ| < |m|`, `x − ρ ∈ m·ℤ`):
+* if `ρ ≥ 0` (this includes the remainder −0.0 of a negative multiple of `m`) the result **is** `ρ`:
+  exactly the least non-negative remainder, `0 ≤ r < |m|`, no rounding at all;
+* if `ρ < 0` the result is the binary32 value nearest to the exact `ρ + |m| ∈ (0, |m|)`, which is
+  congruent to `x`; being correctly rounded between the representable anchors `0` and `|m|` it lies in
+  `[0, |m|]` (the single rounding is the only inexact step; `|m|` itself results only when `|ρ|` is
+  below half an ulp of `|m|`). -/
+theorem fallback_rem_euclid_spec {x m : UInt32} {xv mv : ℚ} (hx : toRat? x = some xv)
+    (hm : toRat? m = some mv) (hm0 : mv ≠ 0) :
+    ∃ ρ r : ℚ, toRat? (rem x m) = some ρ ∧ (∃ k : ℤ, xv - ρ = (k : ℚ) * mv) ∧ |ρ| < |mv| ∧
+      toRat? (remEuclid x m) = some r ∧ 0 ≤ r ∧ r ≤ |mv| ∧
+      (0 ≤ ρ → r = ρ ∧ r < |mv|) ∧
+      (ρ < 0 → (∃ k : ℤ, xv - (ρ + |mv|) = (k : ℚ) * mv) ∧
+        ∀ s : ℚ, Rep s → |r - (ρ + |mv|)| ≤ |s - (ρ + |mv|)|) := by
   have hrem := rem_exact hx hm hm0
   obtain ⟨hrep, hlt, -⟩ := rep_fmod (rep_of_toRat? hx) (rep_of_toRat? hm) hm0
   obtain ⟨ρ, hρ⟩ : ∃ ρ : ℚ, ρ = xv - ((ratTrunc (xv / mv) : ℤ) : ℚ) * mv := ⟨_, rfl⟩
   rw [← hρ] at hrem hrep hlt
-  rw [abs_of_pos hmp] at hlt
-  -- x ≤ 0, hence ρ ≤ 0
-  have hx0 : xv ≤ 0 := by
-    by_contra hpos
-    have := signBit_false_of_pos hx (not_le.1 hpos)
-    rw [this] at hs; cases hs
-  have hρ0 : ρ ≤ 0 := by
-    have hfac : ρ = (xv / mv - ((ratTrunc (xv / mv) : ℤ) : ℚ)) * mv := by rw [hρ]; field_simp
-    rw [hfac]
-    have hd : xv / mv ≤ 0 := div_nonpos_of_nonpos_of_nonneg hx0 (le_of_lt hmp)
-    have : xv / mv - ((ratTrunc (xv / mv) : ℤ) : ℚ) ≤ 0 := by
-      rcases lt_or_eq_of_le hd with h | h
-      · have := ((ratTrunc_bounds (xv / mv)).2 h).2.1; linarith
-      · rw [h]; have := ratTrunc_intCast 0; simp at this; rw [this]; simp
-    exact mul_nonpos_of_nonpos_of_nonneg this (le_of_lt hmp)
-  have hρlo : -mv < ρ := by have := abs_lt.1 hlt; exact this.1
-  -- 1.0 · m = m exactly
-  have hmul : toRat? (mul (boolToF32 true) m) = some mv := by
-    unfold mul boolToF32
-    simp only [↓reduceIte]
-    rw [isNaN_eq_false_of_some toRat?_one, isNaN_eq_false_of_some hm, toRat?_one, hm]
-    have : (1 * mv == 0) = false := by simpa using hm0
-    simp only [Bool.or_self, Bool.false_eq_true, ↓reduceIte, this]
-    rw [one_mul]; exact toRat?_ofRat (rep_of_toRat? hm)
-  -- the final addition rounds ρ + m ∈ (0, m] to nearest
-  have hsum_pos : 0 < ρ + mv := by linarith
-  have hsum_le : ρ + mv ≤ mv := by linarith
-  have hthr : |ρ + mv| < (2 : ℚ) ^ 128 - (2 : ℚ) ^ 103 := by
-    rw [abs_of_pos hsum_pos]
-    have h1 := rep_abs_le (rep_of_toRat? hm)
-    rw [abs_of_pos hmp] at h1
-    have : (2 : ℚ) ^ 128 - (2 : ℚ) ^ 104 < (2 : ℚ) ^ 128 - (2 : ℚ) ^ 103 := by norm_num
-    linarith
-  obtain ⟨v, hv, -, hnear⟩ := ofRat_nearest hthr
-  obtain ⟨v', hv', hv0, hvm⟩ :=
-    ofRat_between Rep.zero (rep_of_toRat? hm) (le_of_lt hsum_pos) hsum_le
-  have hvv : v' = v := by rw [hv] at hv'; exact (Option.some.inj hv').symm
-  have hres : toRat? (remEuclid x m) = some v := by
-    unfold remEuclid
-    rw [hs]
-    unfold add
-    rw [isNaN_eq_false_of_some hrem, isNaN_eq_false_of_some hmul, hrem, hmul]
-    have : (ρ + mv == 0) = false := by simpa using ne_of_gt hsum_pos
-    simp only [Bool.or_self, Bool.false_eq_true, ↓reduceIte, this]
-    exact hv
-  refine ⟨ρ, v, hrem, hρlo, hρ0, ⟨ratTrunc (xv / mv) - 1, by rw [hρ]; push_cast; ring⟩, hres,
-    by rw [← hvv]; exact hv0, by rw [← hvv]; exact hvm, hnear⟩
-
--- hypotheses are satisfiable, and the boundary value `m` is really attained:
--- rem_euclid(−4.0, 4.0) = 4.0, rem_euclid(−1.23, 4.0) = 2.77, rem_euclid(5.67, 4.0) = 1.67
-example : remEuclid 0xC0800000 0x40800000 = 0x40800000 := by decide +kernel
-example : remEuclid 0xBF9D70A4 0x40800000 = 0x403147AE := by decide +kernel
-example : remEuclid 0x40B570A4 0x40800000 = 0x3FD5C290 := by decide +kernel
-
-/-- **std / micromath `rem_euclid`** (`let r = x % m; if r >= 0 { r } else { r + |m| }`, the algorithm
-of both `f32::rem_euclid` and micromath): for finite `x` and finite `m > 0` the result is in `[0, m]`;
-it is *exactly* the least non-negative remainder when `x % m ≥ 0`, and otherwise the binary32 value
-nearest to the exact `(x % m) + m`. -/
-theorem mm_rem_euclid_spec {x m : UInt32} {xv mv : ℚ} (hx : toRat? x = some xv)
-    (hm : toRat? m = some mv) (hmp : 0 < mv) :
-    ∃ ρ r : ℚ, toRat? (rem x m) = some ρ ∧ (∃ k : ℤ, xv - ρ = (k : ℚ) * mv) ∧ |ρ| < mv ∧
-      toRat? (mmRemEuclid x m) = some r ∧ 0 ≤ r ∧ r ≤ mv ∧
-      (0 ≤ ρ → r = ρ) ∧ (ρ < 0 → ∀ s : ℚ, Rep s → |r - (ρ + mv)| ≤ |s - (ρ + mv)|) := by
-  have hm0 : mv ≠ 0 := ne_of_gt hmp
-  have hrem := rem_exact hx hm hm0
-  obtain ⟨hrep, hlt, -⟩ := rep_fmod (rep_of_toRat? hx) (rep_of_toRat? hm) hm0
-  obtain ⟨ρ, hρ⟩ : ∃ ρ : ℚ, ρ = xv - ((ratTrunc (xv / mv) : ℤ) : ℚ) * mv := ⟨_, rfl⟩
-  rw [← hρ] at hrem hrep hlt
-  rw [abs_of_pos hmp] at hlt
+  have hmabs : 0 < |mv| := abs_pos.2 hm0
   have hcong : ∃ k : ℤ, xv - ρ = (k : ℚ) * mv := ⟨ratTrunc (xv / mv), by rw [hρ]; ring⟩
   by_cases hnn : 0 ≤ ρ
-  · -- the remainder is returned as is
-    refine ⟨ρ, ρ, hrem, hcong, hlt, ?_, hnn, le_of_lt (lt_of_le_of_lt (le_abs_self ρ) hlt), fun _ => rfl,
+  · have hρlt : ρ < |mv| := lt_of_le_of_lt (le_abs_self ρ) hlt
+    refine ⟨ρ, ρ, hrem, hcong, hlt, ?_, hnn, le_of_lt hρlt, fun _ => ⟨rfl, hρlt⟩,
       fun h => absurd hnn (not_le.2 h)⟩
-    unfold mmRemEuclid
-    dsimp only
-    rw [le_finite toRat?_zero hrem]
-    simp only [hnn, decide_true, ↓reduceIte]
+    unfold remEuclid; dsimp only
+    rw [lt_finite hrem toRat?_zero]
+    simp only [not_lt.2 hnn, decide_false, Bool.false_eq_true, ↓reduceIte]
     exact hrem
   · have hneg : ρ < 0 := not_le.1 hnn
-    have hρlo : -mv < ρ := (abs_lt.1 hlt).1
-    have habs : toRat? (FloatFallback.abs m) = some mv := by
-      rw [toRat?_abs hm, abs_of_pos hmp]
-    have hsum_pos : 0 < ρ + mv := by linarith
-    have hsum_le : ρ + mv ≤ mv := by linarith
-    have hthr : |ρ + mv| < (2 : ℚ) ^ 128 - (2 : ℚ) ^ 103 := by
+    have hρlo : -|mv| < ρ := (abs_lt.1 hlt).1
+    have habs : toRat? (FloatFallback.abs m) = some |mv| := toRat?_abs hm
+    have hrabs : Rep |mv| := rep_of_toRat? habs
+    have hsum_pos : 0 < ρ + |mv| := by linarith
+    have hsum_le : ρ + |mv| ≤ |mv| := by linarith
+    have hthr : abs (ρ + abs mv) < (2 : ℚ) ^ 128 - (2 : ℚ) ^ 103 := by
       rw [abs_of_pos hsum_pos]
-      have h1 := rep_abs_le (rep_of_toRat? hm)
-      rw [abs_of_pos hmp] at h1
+      have h1 := rep_abs_le hrabs
+      rw [abs_abs] at h1
       have : (2 : ℚ) ^ 128 - (2 : ℚ) ^ 104 < (2 : ℚ) ^ 128 - (2 : ℚ) ^ 103 := by norm_num
       linarith
     obtain ⟨v, hv, -, hnear⟩ := ofRat_nearest hthr
-    obtain ⟨v', hv', hv0, hvm⟩ :=
-      ofRat_between Rep.zero (rep_of_toRat? hm) (le_of_lt hsum_pos) hsum_le
+    obtain ⟨v', hv', hv0, hvm⟩ := ofRat_between Rep.zero hrabs (le_of_lt hsum_pos) hsum_le
     have hvv : v' = v := by rw [hv] at hv'; exact (Option.some.inj hv').symm
+    -- ρ + |m| is congruent to x as well
+    have hcong' : ∃ k : ℤ, xv - (ρ + |mv|) = (k : ℚ) * mv := by
+      obtain ⟨k, hk⟩ := hcong
+      rcases abs_cases mv with ⟨ha, _⟩ | ⟨ha, _⟩
+      · exact ⟨k - 1, by rw [ha]; push_cast; linarith⟩
+      · exact ⟨k + 1, by rw [ha]; push_cast; linarith⟩
     refine ⟨ρ, v, hrem, hcong, hlt, ?_, by rw [← hvv]; exact hv0, by rw [← hvv]; exact hvm,
-      fun h => absurd h hnn, fun _ => hnear⟩
-    unfold mmRemEuclid
-    dsimp only
-    rw [le_finite toRat?_zero hrem]
-    simp only [hnn, decide_false, Bool.false_eq_true, ↓reduceIte]
+      fun h => absurd h hnn, fun _ => ⟨hcong', hnear⟩⟩
+    unfold remEuclid; dsimp only
+    rw [lt_finite hrem toRat?_zero]
+    simp only [hneg, decide_true, ↓reduceIte]
     unfold add
     rw [isNaN_eq_false_of_some hrem, isNaN_eq_false_of_some habs, hrem, habs]
-    have : (ρ + mv == 0) = false := by simpa using ne_of_gt hsum_pos
+    have : (ρ + |mv| == 0) = false := by simpa using ne_of_gt hsum_pos
     simp only [Bool.or_self, Bool.false_eq_true, ↓reduceIte, this]
     exact hv
 
+/-- Same statement for the `mm` back end (micromath's variant returns the same bits). -/
+theorem mm_rem_euclid_spec {x m : UInt32} {xv mv : ℚ} (hx : toRat? x = some xv)
+    (hm : toRat? m = some mv) (hm0 : mv ≠ 0) :
+    ∃ r : ℚ, toRat? (mmRemEuclid x m) = some r ∧ 0 ≤ r ∧ r ≤ |mv| := by
+  rw [mm_rem_euclid_eq_std_algorithm]
+  obtain ⟨_, r, _, _, _, hr, h0, h1, _, _⟩ := fallback_rem_euclid_spec hx hm hm0
+  exact ⟨r, hr, h0, h1⟩
+
+-- hypotheses are satisfiable; the cases the pre-fix formula got wrong:
+-- rem_euclid(−4, 4) = −0.0 (value 0, not 4); rem_euclid(−0.0, 4) = −0.0; rem_euclid(−1, −4) = 3
+example : remEuclid 0xC0800000 0x40800000 = 0x80000000 := by decide +kernel
+example : remEuclid 0x80000000 0x40800000 = 0x80000000 := by decide +kernel
+example : remEuclid 0xBF800000 0xC0800000 = 0x40400000 := by decide +kernel
+example : remEuclid 0xBF9D70A4 0x40800000 = 0x403147AE := by decide +kernel   -- rem_euclid(−1.23, 4) = 2.77
 example : mmRemEuclid 0xC0E00000 0x40800000 = 0x3F800000 := by decide +kernel   -- (−7) rem_euclid 4 = 1
+
+/-- The repaired defect (e9e07c1): the old formula `x % m + (sign_negative as f32)·m` returned `m` for
+negative multiples of `m` and for −0.0, and a negative value for negative `m`. -/
+theorem rem_euclid_old_returns_m :
+    remEuclidOld 0xC0800000 0x40800000 = 0x40800000 ∧ remEuclidOld 0x80000000 0x40800000 = 0x40800000 ∧
+    remEuclidOld 0xBF800000 0xC0800000 = 0xC0A00000 := by
+  decide +kernel
 
 /-! ### The models meet the independent spec predicates of `Retro.Spec.FloatSpec`
 
@@ -824,6 +778,34 @@ theorem round_up_to_half_exact {x : UInt32} {q : ℚ} (hx : toRat? x = some q) (
     have : q < (k : ℚ) + 1 / 2 := by linarith
     simp only [this, decide_true, ↓reduceIte]
     exact hsub
+
+/-- the rounded sum `x + 0.5` of a coordinate `−½ ≤ x < 2^22`: finite, non-negative, sign clear -/
+theorem add_half_facts {x : UInt32} {q : ℚ} (hx : toRat? x = some q) (h0 : -1 / 2 ≤ q) (hq : q < 2 ^ 22) :
+    ∃ σ, toRat? (add x half) = some σ ∧ 0 ≤ σ ∧ σ < 2 ^ 31 ∧ signBit (add x half) = false := by
+  unfold add
+  rw [isNaN_eq_false_of_some hx, isNaN_eq_false_of_some toRat?_half, hx, toRat?_half]
+  simp only [Bool.or_self, Bool.false_eq_true, ↓reduceIte]
+  by_cases hz : q + 1 / 2 = 0
+  · have hb0 : (q + 1 / 2 == 0) = true := by rw [hz]; rfl
+    have hh : ((1 / 2 : ℚ) == 0) = false := by norm_num
+    rw [hb0, hh]
+    simp only [Bool.and_false, Bool.false_eq_true, ↓reduceIte]
+    exact ⟨0, toRat?_zero, le_refl _, by norm_num, by decide⟩
+  · have hb0 : (q + 1 / 2 == 0) = false := by simpa using hz
+    rw [hb0]; simp only [Bool.false_eq_true, ↓reduceIte]
+    have hhi : Rep ((2 : ℚ) ^ (23 : ℕ)) := rep_two_pow (by norm_num)
+    obtain ⟨v, hv, hv0, hv1⟩ := ofRat_between (q := q + 1 / 2) Rep.zero hhi (by linarith) (by norm_num; linarith)
+    exact ⟨v, hv, hv0, lt_of_le_of_lt hv1 (by norm_num), signBit_ofRat_of_nonneg (by linarith)⟩
+
+/-- **round_up_to_half_exact, no-fp variant.** For every coordinate `−½ ≤ x < 2^22` (what survives
+clipping) the variant compiled without an fp feature returns exactly `⌊x + ½⌋ + ½` as well. -/
+theorem round_up_to_half_exact_nofp {x : UInt32} {q : ℚ} (hx : toRat? x = some q) (h0 : -1 / 2 ≤ q)
+    (hq : q < 2 ^ 22) :
+    toRat? (roundUpHalfNoFp x) = some (((⌊q + 1 / 2⌋ : ℤ) : ℚ) + 1 / 2) := by
+  obtain ⟨σ, hσ, hσ0, hσ1, hs⟩ := add_half_facts hx h0 hq
+  rw [round_half_variants_agree hσ hσ0 hs hσ1]
+  apply round_up_to_half_exact hx
+  rw [abs_lt]; constructor <;> linarith
 
 -- the witness of the repaired defect: x = 0.49999997 ↦ 0.5 (before the fix: 1.5)
 example : roundUpHalfFp F32.floor 0x3EFFFFFF = half ∧ roundUpHalfNoFp 0x3EFFFFFF = half := by
